@@ -10,9 +10,12 @@
   c04.unary   ufunc method n <unit> x           the unary value path
   c04.dot     <unit0> <unit1>                   `unyt_array.dot`
   c04.pow     <unit> p                          `unyt_array.__pow__`
+  c04.prog    n  <unit x>*n  tok…               a whole expression program (postfix: L<i>, B:<ufunc>,
+                                                U:<ufunc>, P:<p/q>) through `Prog.evalModel`
 -/
 import UnytModel.DriverBase
 import UnytModel.UfuncValue
+import UnytModel.UfuncProgram
 
 namespace Unyt
 open Unyt.UV
@@ -68,6 +71,41 @@ def parseOpnd (k sc off dim co fac z : String) : Option (Opnd Float) :=
 def outLine (o : Out Float) (val : String) : String :=
   let early := match o.early with | some true => "1" | some false => "0" | none => "-"
   s!"ok\t{optUnitOut o.unit}\t{bitsStr o.conv}\t{bitsStr o.mul}\t{bitsStr o.post}\t{early}\t{val}"
+
+/-- parse `n` leaves (6 fields each: the unit's 5 fields and the number) -/
+def parseLeaves : Nat → List String → Option (List (UnitV Float × Float) × List String)
+  | 0, rest => some ([], rest)
+  | n + 1, sc :: off :: dim :: co :: fac :: x :: rest =>
+    match parseUnitV sc off dim co fac, fb x, parseLeaves n rest with
+    | some u, some v, some (l, r) => some ((u, v) :: l, r)
+    | _, _, _ => none
+  | _, _ => none
+
+/-- build a program from postfix tokens -/
+def parseProg (toks : List String) : Option (Prog Float) :=
+  let step (st : Option (List (Prog Float))) (tok : String) : Option (List (Prog Float)) :=
+    match st with
+    | none => none
+    | some stack =>
+      if tok.startsWith "L" then (tok.drop 1).toNat?.map fun i => Prog.leaf i :: stack
+      else if tok.startsWith "B:" then
+        let f := (tok.drop 2).toString
+        match kernelFloat2 f, stack with
+        | some F, b :: a :: r => some (Prog.bin f F a b :: r)
+        | _, _ => none
+      else if tok.startsWith "U:" then
+        let f := (tok.drop 2).toString
+        match kernelFloat1 f, stack with
+        | some G, a :: r => some (Prog.un f G a :: r)
+        | _, _ => none
+      else if tok.startsWith "P:" then
+        match parseRat (tok.drop 2).toString, stack with
+        | some p, a :: r => some (Prog.pow p (fun x => Float.pow x (ratToFloat p)) a :: r)
+        | _, _ => none
+      else none
+  match toks.foldl step (some []) with
+  | some [p] => some p
+  | _ => none
 
 def stepC04 (st : DriverState) (fields : List String) : Option (DriverState × String) :=
   let pre := st.pre
@@ -139,6 +177,20 @@ def stepC04 (st : DriverState) (fields : List String) : Option (DriverState × S
       | .ok o => some (st, outLine o "-")
       | .error e => some (st, s!"err\t{e.str}")
     | _, _ => some (st, "bad-op")
+  | "c04.prog" :: n :: rest =>
+    match n.toNat? with
+    | none => some (st, "bad-op")
+    | some n =>
+      match parseLeaves n rest with
+      | none => some (st, "bad-op")
+      | some (leaves, toks) =>
+        match parseProg toks with
+        | none => some (st, "bad-op")
+        | some p =>
+          let env : Nat → UnitV Float × Float := fun i => leaves.getD i (UnitV.dimensionless, 0)
+          match p.evalModel UnitV.eqFloat pre t env with
+          | .ok (u, v) => some (st, s!"ok\t{optUnitOut (some u)}\t{bitsStr v}")
+          | .error e => some (st, s!"err\t{e.str}")
   | _ => none
 
 def opsC04 : Handler := stepC04
